@@ -350,7 +350,7 @@ HIER_SITES = ["u_abs_sorted", "a_s", "norm_v", "x", "w", "intervals", "lower", "
 def _resolve_all(f, unit):
     """the returned expression of a straight-line function with every local substituted (tuple unpackings of `.shape` become subscripts of
     it, calls of the helper soft_threshold with a zero threshold are the identity); None if the function is not of that shape"""
-    import copy
+    from ..astutil import clone as _clone
     body = [s_ for s_ in f.body if not (isinstance(s_, ast.Expr) and isinstance(s_.value, ast.Constant))]
     if not body or not isinstance(body[-1], ast.Return) or body[-1].value is None:
         return None
@@ -359,7 +359,7 @@ def _resolve_all(f, unit):
     class Sub(ast.NodeTransformer):
         def visit_Name(self, n):
             if isinstance(n.ctx, ast.Load) and n.id in env:
-                return copy.deepcopy(env[n.id])
+                return _clone(env[n.id])
             return n
 
         def visit_Call(self, n):
@@ -371,26 +371,26 @@ def _resolve_all(f, unit):
             return n
     for st in body[:-1]:
         if isinstance(st, ast.Assign) and len(st.targets) == 1 and isinstance(st.targets[0], ast.Name):
-            env[st.targets[0].id] = Sub().visit(copy.deepcopy(st.value))
+            env[st.targets[0].id] = Sub().visit(_clone(st.value))
         elif isinstance(st, ast.Assign) and len(st.targets) == 1 and isinstance(st.targets[0], ast.Tuple) and all(isinstance(e, ast.Name) for e in st.targets[0].elts):
-            val = Sub().visit(copy.deepcopy(st.value))
+            val = Sub().visit(_clone(st.value))
             if isinstance(val, ast.Tuple) and len(val.elts) == len(st.targets[0].elts):
                 for t_, v_ in zip(st.targets[0].elts, val.elts):
                     env[t_.id] = v_
             elif isinstance(val, ast.Attribute) and val.attr == "shape":
                 for i_, t_ in enumerate(st.targets[0].elts):
-                    env[t_.id] = ast.Subscript(value=copy.deepcopy(val), slice=ast.Constant(value=i_), ctx=ast.Load())
+                    env[t_.id] = ast.Subscript(value=_clone(val), slice=ast.Constant(value=i_), ctx=ast.Load())
             else:
                 return None
         else:
             return None
-    return ast.fix_missing_locations(Sub().visit(copy.deepcopy(body[-1].value)))
+    return ast.fix_missing_locations(Sub().visit(_clone(body[-1].value)))
 
 
 def _whole_function_is_hier_prox(ctx, u, f, qn):
     """name-independent decision: the returned pair, with every local substituted, is canonically the HIER-PROX closed form (reference
     above, itself substituted the same way).  True -> every clause of C05-c about the formulas is discharged at once."""
-    import copy
+    from ..astutil import clone as _clone
     try:
         got = _resolve_all(f, u)
         ref_f = ast.parse(HIER_PROX_REFERENCE).body[0]
